@@ -181,7 +181,12 @@ Run(S, c, cmd) ==
           [] nm = "CLIENT" -> Client(S, c, a)
           [] nm = "UNWATCH" -> IF Len(a) # 0 THEN SOk(S, EArg)
                                ELSE SOk([S EXCEPT !.conn[c].watch = {}, !.conn[c].cas = FALSE, !.conn[c].wid = <<>>], ROk)
-          [] OTHER -> SOk(S, RErr("ERR"))
+          \* an unknown command name is refused; the emulator quotes the name and the arguments in the error
+          \* line, so CR / LF in them break the framing of the reply
+          [] OTHER -> IF nm = "?" /\ On("D_UNKNOWN_COMMAND_ERROR_ECHOES_CRLF")
+                         /\ \E j \in 1..Len(cmd) : \E q \in 1..Len(cmd[j]) : cmd[j][q] \in {10, 13}
+                      THEN SDev(S, [t |-> "misframed"], "D_UNKNOWN_COMMAND_ERROR_ECHOES_CRLF")
+                      ELSE SOk(S, RErr("ERR"))
 
 -----------------------------------------------------------------------------
 (* Transactions *)
